@@ -1367,6 +1367,11 @@ theorem C02_mirror_rules (s : Schema) : Spec.MirrorRules s (ruleDict s) where
     ⟨rfl, forall2_map _ _ (fun w _ => mirrorWhere_whereText w), forall2_map _ _ (fun u _ => mirrorUnique_uniqueText u)⟩)
   types := forall2_map _ _ (fun _ _ => ⟨rfl, forall2_map _ _ (fun w _ => mirrorWhere_whereText w), rfl⟩)
 
+/-- The supertype statement an entity descriptor carries (`Supertype_Stmt()`) is the declaration's `[ABSTRACT] SUPERTYPE [OF ( … )]`,
+    with the constraint as printed; the literal pieces are regenerated from classes_entity.c, the specification states them. -/
+theorem C02_mirror_supertype_stmt (s : Schema) : ∀ e ∈ s.entities, Spec.MirrorSuperStmt e (supertypeStmt e) :=
+  fun e _ => mirrorSuperStmt e
+
 /-- Tie: both functions that copy EXPRESS text into C++ string literals write a backslash in front of exactly the backslash and
     the double quote (regenerated from classes.c).  Before fix C02-10 the double quote was missing — see the witness below. -/
 theorem C02_literal_escapes :
